@@ -46,6 +46,10 @@ type specEnv struct {
 func (e *specEnv) errf(format string, args ...any) {
 	msg := fmt.Sprintf(format, args...)
 	*e.errs = append(*e.errs, msg)
+	if e.tr != nil {
+		// the clause being evaluated belongs to the obligation created next
+		e.tr.errAt = append(e.tr.errAt, len(e.tr.obls))
+	}
 }
 
 func (e *specEnv) with(vars map[string]specVal) *specEnv {
@@ -1308,6 +1312,10 @@ func (a *Act) atReturn(st *State, in *ssa.Return, results []Term) {
 			if li.ord == ord && li.headSt != nil && (li.blocks[in.Block()] || li.header.Dominates(in.Block())) {
 				outT := e.eval(ts.result.expr).t
 				a.tailrecOblige(st, li, outT, "return")
+			} else if li.ord == ord && !li.blocks[in.Block()] && !li.header.Dominates(in.Block()) {
+				// a return that never reaches the loop: the relation holds from the entry values
+				outT := e.eval(ts.result.expr).t
+				a.tailrecOblige(st, li, outT, "return-before-loop")
 			}
 		}
 	}
